@@ -40,6 +40,7 @@ type c14Req struct {
 	Start  time.Duration
 	End    time.Duration
 	Verify string // "" ok, else what is wrong
+	Timeout time.Duration
 }
 
 var c14Mods = []string{"ps", "pgp", "jar", "cat", "pe-coff", "msi", "appmanifest"}
@@ -52,6 +53,13 @@ func c14Isolation(r *core.Run, scheduled bool) {
 	nclients := 3 + t.Choose(6, "nclients")
 	cacheS := core.Pick(t, "cache-seconds", 600, 1, 5)
 	rateLimit := core.Pick(t, "token-ratelimit", 0.0, 5.0, 1.0)
+	// stampede: at one virtual instant, after the key cache has expired and
+	// with the token's rate limiter drained, every client asks for the same
+	// key; the first caller gives up while its lookup is still waiting
+	stampede := scheduled && t.Chance(1, 3, "stampede")
+	if stampede {
+		cacheS, rateLimit = 1, 1.0
+	}
 	// client-fp-1 may use everything, client-fp-2 only the r2 keys
 	var reqs []*c14Req
 	var recs []map[string]any
@@ -106,10 +114,12 @@ func c14Isolation(r *core.Run, scheduled bool) {
 			}
 		}
 		type plan struct {
-			kind  string
-			c     *signCase
-			key   string
-			think time.Duration
+			kind    string
+			c       *signCase
+			key     string
+			think   time.Duration
+			timeout time.Duration // the caller gives up after this long (0: never)
+			stampedeAt time.Duration
 		}
 		plans := make([][]plan, nclients)
 		id := 0
@@ -124,8 +134,23 @@ func c14Isolation(r *core.Run, scheduled bool) {
 				if t.Chance(1, 2, "no-think") {
 					p.think = 0
 				}
+				if t.Chance(1, 6, "caller-gives-up") {
+					p.timeout = time.Duration(1+t.Choose(150, "give-up-after")) * 10 * time.Millisecond
+				}
 				plans[c] = append(plans[c], p)
 			}
+		}
+		if stampede {
+			for c := range plans {
+				p := plan{kind: "sign", stampedeAt: 8 * time.Second}
+				p.c = genSignCase(t, fmt.Sprintf("%dy%dst", r.No, c), []string{"ps", "cat"})
+				p.key = "ec2"
+				if c == 0 {
+					p.timeout = time.Duration(5+t.Choose(60, "leader-gives-up")) * 10 * time.Millisecond
+				}
+				plans[c] = append(plans[c], p)
+			}
+			r.Probe("stampede")
 		}
 		done := make(chan []*c14Req, nclients)
 		for c := 0; c < nclients; c++ {
@@ -139,8 +164,14 @@ func c14Isolation(r *core.Run, scheduled bool) {
 			body := func() {
 				var mine []*c14Req
 				for i, p := range myPlans {
+					if p.stampedeAt > 0 {
+						if d := p.stampedeAt - w.Since(); d > 0 {
+							w.Sleep(d)
+						}
+					}
 					rq := &c14Req{ID: base + i, Client: name, Kind: p.kind, Case: p.c, Key: p.key, Ident: ident, Start: w.Since()}
-					rs := reqSpec{Method: "GET", Peer: fmt.Sprintf("192.0.2.%d:4000", c+1), TLS: pki[ident]}
+					rs := reqSpec{Method: "GET", Peer: fmt.Sprintf("192.0.2.%d:4000", c+1), TLS: pki[ident], Timeout: p.timeout}
+					rq.Timeout = p.timeout
 					switch p.kind {
 					case "sign":
 						// every relic client is its own process: client-side code of
@@ -266,6 +297,10 @@ func c14Isolation(r *core.Run, scheduled bool) {
 				}
 				break
 			}
+			if !ok && rq.Timeout > 0 {
+				r.Probe("caller-gave-up")
+				break
+			}
 			var ki struct{ X509Certificate string }
 			json.Unmarshal(rq.Body, &ki)
 			blk, _ := pem.Decode([]byte(ki.X509Certificate))
@@ -281,6 +316,13 @@ func c14Isolation(r *core.Run, scheduled bool) {
 				if byFile[c.File] != 0 {
 					r.Failf("C14.audit-count", "refused-but-recorded", "refused request has an audit record: %s", desc)
 				}
+				break
+			}
+			if !ok && rq.Timeout > 0 {
+				// this caller put a deadline on its own request (the rate
+				// limiter even fails early when the wait would exceed it);
+				// nobody else may be affected
+				r.Probe("caller-gave-up")
 				break
 			}
 			if !ok {
